@@ -47,6 +47,7 @@ func NewSmmaWithPeriod[T helper.Number](period int) *Smma[T] {
 func (s *Smma[T]) Compute(c <-chan T) <-chan T {
 	result := make(chan T, cap(c))
 
+	helper.VerifStage("XmaCore", s.Period, []any{c}, []any{result})
 	go func() {
 		defer close(result)
 
